@@ -881,3 +881,112 @@ func levelParamClass(w *core.World, fn *ssa.Function, s core.BoundsSite) (string
 	}
 	return fmt.Sprintf("all %d library call sites pass a frame number behind `< Levels()`", n), true
 }
+
+// checkFlagSizeRelation: the flag-index class above rests on BitSize <= 8*len(Flags). That relation
+// is established by the constructor and must not be re-established anywhere else: State.BitSize
+// and the State.Flags field are stored only on a State allocated in the same function, and there
+// the byte slice is made with a length computed (by the package's rounding helper) from the very
+// expression stored as BitSize. A later resize or copy of either field - a migration of a stored
+// session to a larger flag count, say - is where the two get out of step: a signal below BitSize
+// then indexes past the flag bytes (a crash on well-formed CATCH/CROAK operands).
+func checkFlagSizeRelation(w *core.World, r *core.Report, rule string) {
+	sameExpr := func(a, b ssa.Value) bool { return false }
+	var same func(a, b ssa.Value, d int) bool
+	same = func(a, b ssa.Value, d int) bool {
+		a, b = core.Strip(a), core.Strip(b)
+		if a == b {
+			return true
+		}
+		if d > 4 {
+			return false
+		}
+		if ca, ok := core.ConstInt(a); ok {
+			cb, ok2 := core.ConstInt(b)
+			return ok2 && ca == cb
+		}
+		ba, ok1 := a.(*ssa.BinOp)
+		bb, ok2 := b.(*ssa.BinOp)
+		if ok1 && ok2 && ba.Op == bb.Op {
+			return same(ba.X, bb.X, d+1) && same(ba.Y, bb.Y, d+1)
+		}
+		return false
+	}
+	sameExpr = func(a, b ssa.Value) bool { return same(a, b, 0) }
+	n, bad := 0, ""
+	var badPos token.Pos
+	var sizeVals, lenArgs []ssa.Value
+	for _, fn := range w.LibFuncs {
+		for _, in := range allInstrs(fn) {
+			st, ok := in.(*ssa.Store)
+			if !ok {
+				continue
+			}
+			tn, f, ok := core.FieldOfAddr(st.Addr)
+			if !ok || tn != "state.State" || (f != "BitSize" && f != "Flags") {
+				continue
+			}
+			n++
+			fresh := false
+			if fa, ok := st.Addr.(*ssa.FieldAddr); ok {
+				if al, ok := fa.X.(*ssa.Alloc); ok && al.Heap {
+					fresh = true
+				}
+			}
+			if !fresh {
+				bad = fmt.Sprintf("%s stores State.%s of an existing State at %s", core.QName(fn), f, w.Pos(st.Pos()))
+				badPos = st.Pos()
+				continue
+			}
+			if f == "BitSize" {
+				sizeVals = append(sizeVals, st.Val)
+				continue
+			}
+			// Flags of the fresh object: make([]byte, helper(expr)) or an empty literal
+			for _, src := range core.Sources(st.Val) {
+				switch t := src.(type) {
+				case *ssa.MakeSlice:
+					for _, ls := range core.Sources(t.Len) {
+						ls = core.Strip(ls)
+						if cv, ok := ls.(*ssa.Convert); ok {
+							ls = core.Strip(cv.X)
+						}
+						if c, ok := ls.(*ssa.Call); ok && core.StaticCallee(c) != nil && core.PkgOf(core.StaticCallee(c)) == "state" && len(c.Call.Args) == 1 {
+							lenArgs = append(lenArgs, c.Call.Args[0])
+						} else {
+							bad = fmt.Sprintf("%s makes the flag bytes with a length that is not the rounding helper's result at %s", core.QName(fn), w.Pos(st.Pos()))
+							badPos = st.Pos()
+						}
+					}
+				case *ssa.Slice:
+					// []byte{} literal: slice of a zero-length array
+				case *ssa.Alloc:
+					// []byte{} literal: the zero-length array itself
+					if pt, ok := t.Type().Underlying().(*types.Pointer); ok {
+						if at, ok := pt.Elem().Underlying().(*types.Array); ok && at.Len() == 0 {
+							continue
+						}
+					}
+					bad = fmt.Sprintf("%s sets the flag bytes from a literal at %s", core.QName(fn), w.Pos(st.Pos()))
+					badPos = st.Pos()
+				default:
+					bad = fmt.Sprintf("%s sets the flag bytes from %s at %s", core.QName(fn), valueDesc(src), w.Pos(st.Pos()))
+					badPos = st.Pos()
+				}
+			}
+		}
+	}
+	for _, la := range lenArgs {
+		ok := false
+		for _, sv := range sizeVals {
+			if sameExpr(la, sv) {
+				ok = true
+			}
+		}
+		if !ok {
+			bad = "the constructor computes the number of flag bytes from an expression other than the one stored as BitSize"
+		}
+	}
+	r.Check(bad == "" && n >= 2 && len(lenArgs) > 0, rule, "invariant: State.BitSize and the flag bytes are set together, by the constructor only", badPos,
+		fmt.Sprintf("%d stores, all on a State allocated in the same function; byte count computed from the stored bit count", n),
+		"the relation BitSize <= 8*len(Flags) that the flag accessors' range check relies on can be broken after construction: a signal below BitSize then indexes past the flag bytes (run-time panic on a well-formed CATCH/CROAK/flag operand): "+bad)
+}
